@@ -598,6 +598,27 @@ func runValidators(o *Out, r *rand.Rand, scale int, vec *vectors) {
 		}
 		orc.header = hd
 		c01_valCase(o, "h", hv, fmt.Sprintf("body:hw=%d:bw=%d:wm=%d", hw, bw, wm), cat([]byte{1}, rnd(32)), body, "")
+		// the same body carrying transactions (so that all three fields have an extent of their own), intact and with its
+		// offset table and bytes disturbed: whatever the header says, the answer is an error or an acceptance, never a panic
+		var txs [][]byte
+		for k := 1 + r.Intn(3); k > 0; k-- {
+			txs = append(txs, rnd(10+r.Intn(90)))
+		}
+		var full []byte
+		if bw == 1 {
+			enc := make([][]byte, 0)
+			for _, w := range ws {
+				wb, _ := rlp.EncodeToBytes(w)
+				enc = append(enc, wb)
+			}
+			full, _ = (&history.PortalBlockBodyShanghai{Transactions: txs, Uncles: []byte{0xc0}, Withdrawals: enc}).MarshalSSZ()
+		} else {
+			full, _ = (&history.BlockBodyLegacy{Transactions: txs, Uncles: []byte{0xc0}}).MarshalSSZ()
+		}
+		c01_valCase(o, "h", hv, "raw", cat([]byte{1}, rnd(32)), full, "")
+		for k := 0; k < 24; k++ {
+			c01_valCase(o, "h", hv, "raw", cat([]byte{1}, rnd(32)), c01_mutate(r, full), "")
+		}
 	}
 	for i := 0; i < 60*scale; i++ {
 		c01_valCase(o, "h", hv, "raw", cat([]byte{byte(r.Intn(4))}, rnd([]int{0, 8, 32, 33}[r.Intn(4)])), rnd(r.Intn(300)), "")
